@@ -177,6 +177,7 @@ Apply(op, h) ==
     [] op = "innerSvOdd"   -> Reseal(h, [p EXCEPT !.exts = SetV(px, IdxT(px, "sv"), "odd")])
     [] op = "innerSniNameType" -> Reseal(h, [p EXCEPT !.exts = SetV(px, IdxT(px, "sni"), "badtype")])
     [] op = "innerTypeNo13" -> [h EXCEPT !.ech = InnerEch, !.exts = SetV(x, IdxT(x, "sv"), "12")]   \* two faults at once: still illegal
+    [] op = "sniKelvin"   -> LET h1 == [h EXCEPT !.exts = SetV(x, IdxT(x, "sni"), "pubKelvin")] IN Reseal(h1, p)   \* the public name with its "k" written as U+212A (equal only under Unicode case folding)
     [] op = "sniNotPublic" -> LET h1 == [h EXCEPT !.exts = SetV(x, IdxT(x, "sni"), "other")] IN Reseal(h1, p)
     [] op = "noOuterSni"  -> LET h1 == [h EXCEPT !.exts = DropAt(x, IdxT(x, "sni"))] IN Reseal(h1, p)
     \* -- illegal hellos (C04), inside an authentic payload
@@ -216,7 +217,7 @@ Tampers == {"echTrailing", "swap1", "swapLast", "drop2", "addExt", "changeVal", 
 PassOps == {"noEch", "grease", "no13", "noSv", "unlistedSuite"}
 \* the alert class each illegal hello must be answered with
 ClassOf(op) ==
-  CASE op \in {"sniNameType", "innerSniNameType", "innerTypeNo13", "dupEchBefore", "dupEchInnerBefore", "dupEchAfter", "eoeInOuter", "innerTypeInOuter", "badEchType", "emptyEnc", "sniNotPublic", "noOuterSni", "noInnerEch", "outerTypeInInner",
+  CASE op \in {"sniNameType", "innerSniNameType", "innerTypeNo13", "dupEchBefore", "dupEchInnerBefore", "dupEchAfter", "eoeInOuter", "innerTypeInOuter", "badEchType", "emptyEnc", "sniNotPublic", "sniKelvin", "noOuterSni", "noInnerEch", "outerTypeInInner",
                "innerNo13", "innerNoSv", "nonZeroPad", "eoeOutOfOrder", "eoeRepeated", "eoeAmplify", "eoeMissing", "eoeRefsEch", "eoeRefsEoe", "eoeTwice"} -> "illegal_parameter"
     [] op \in {"eoeOdd", "eoeBadLen", "svOdd", "sniTwoNames", "innerSvOdd"} -> "decode_error"
     [] OTHER -> "none"
